@@ -78,8 +78,27 @@ def gen_args(rng, kind, exact=True, positive=False):
     if kind in ('short', 'open'): return {}
     raise ValueError(kind)
 
+MAGNITUDES = [2.0 ** -40, 2.0 ** -20, 2.0 ** 20]
+
+def rescale_sources(desc, f):
+    """multiply every independent source value by the (power-of-two, hence exact) factor f"""
+    for d in desc['branches']:
+        for k in ('V', 'I'):
+            if k in d['args']:
+                d['args'][k] = d['args'][k] * f
+    return desc
+
 def random_desc(rng, exact=True, n_nodes=None, n_extra=None, kinds=None, degenerate=0.0,
-                positive=False, min_sources=1):
+                positive=False, min_sources=1, magnitudes=0.15):
+    """as below; with probability `magnitudes` all sources are rescaled to pico / micro / mega
+    magnitudes (exact power-of-two factor)"""
+    d = _random_desc(rng, exact, n_nodes, n_extra, kinds, degenerate, positive, min_sources)
+    if rng.random() < magnitudes:
+        rescale_sources(d, rng.choice(MAGNITUDES))
+    return d
+
+def _random_desc(rng, exact=True, n_nodes=None, n_extra=None, kinds=None, degenerate=0.0,
+                 positive=False, min_sources=1):
     """connected multigraph: random spanning tree + extra edges (parallel edges allowed),
     random terminal order, adversarial labels / ids."""
     n = n_nodes or rng.randint(2, 8)
